@@ -107,6 +107,13 @@ def frame_to_list(f, fail_on=None):
     return [_n(x) for x in f.columns.values.tolist()] + [_n(f.name)]
 
 
+def frame_mixed_dim(f, fail_on=None):
+    '''A one-row frame is answered by that row (a Series), any other by the frame: results of mixed dimensionality.'''
+    if fail_on is not None and f.name == fail_on:
+        raise TaskFailure('task failed on frame ' + str(f.name))
+    return f.iloc[0] if len(f.index) == 1 else f
+
+
 def frame_to_ragged(f, fail_on=None):
     '''A nested list with rows of unequal length (unless the frame is square): one element per label, whatever its shape.'''
     if fail_on is not None and f.name == fail_on:
